@@ -14,7 +14,8 @@ _QF = {"_distinct_nontrivial": 2000, "cases.completed": 6000, "cmp.intervals": 3
        "torsion.z2_ne_z3": 200, "dispatch.bf128": 400, "dispatch.cns128": 150, "big.top_clique.9plus": 100,
        "enc.index_bits.over64": 120, "enc.index_bits.33_64": 150, "gen.big_wide": 150, "gen.big_rp2": 250, "cmp.isolated": 150,
        "bars.finite.dim1": 4000, "bars.finite.dim2": 150, "bars.finite.dim3plus": 60, "bars.essential.dim1": 4000,
-       "obs.zero_length_dropped": 40000,
+       # (no floor on obs.zero_length_dropped: whether the engine streams zero-length intervals at all is left open by the
+       #  property - a benign change that stops emitting them made such a floor fail, see DESIGN section 12)
        "thr.none_inf": 400, "thr.none_max": 400, "thr.below_min": 400, "thr.equal": 1000, "thr.between": 400,
        "thr.at_max": 400, "thr.above_max": 400, "thr.finite_small": 1400,
        "p.2": 1500, "p.3": 900, "p.5": 900, "p.7": 400, "p.11": 400, "p.13": 400, "p.32749": 400, "p.65521": 400,
